@@ -190,6 +190,18 @@ func driveLongLived(args []string) error {
 		vals := []interface{}{json.Number("5"), json.Number("50"), "abc", json.Number("4"), "ab", json.Number("2.5")}
 		handles = append(handles, mkHandle("schema", []byte(st), vals))
 	}
+	// keywords whose members are visited in map order: every repetition must give the same answer
+	for _, st := range []string{
+		`{"dependencies":{"marker":[],"a":["c"],"other":[]}}`,
+		`{"dependencies":{"m1":[],"m2":[],"b":{"required":["c"]}}}`,
+		`{"patternProperties":{"^a":{"type":"integer"},"b$":{"type":"integer"},"^x":{}},"additionalProperties":{"type":"string"}}`,
+		`{"properties":{"p":{"type":"integer"},"q":{"type":"integer"},"r":{"type":"integer"}},"required":["p","q","r"],"maxProperties":1}`,
+	} {
+		vals := []interface{}{map[string]interface{}{"marker": 1.0, "a": 1.0, "other": 2.0}, map[string]interface{}{"m1": 1.0, "m2": 1.0, "b": 1.0},
+			map[string]interface{}{"a": 1.0, "ab": 2.0, "xa": "s", "zz": "s"}, map[string]interface{}{"p": "x", "q": "y", "r": "z", "marker": 0.0, "a": 0.0},
+			map[string]interface{}{"marker": 1.0, "a": 1.0, "c": 1.0, "m1": 0.0, "b": 0.0}, map[string]interface{}{}}
+		handles = append(handles, mkHandle("schema", []byte(st), vals), mkHandle("schema", []byte(st), vals))
+	}
 	for i := 0; i < *nh; i++ {
 		var h *handle
 		switch i % 3 {
